@@ -41,7 +41,7 @@ def replay(obj):
     case = obj["case"]
     d = asmrun.scratch_dir()
     try:
-        r = roundtrip.run_case(case["text"], d, case.get("big_stack", False))
+        r = roundtrip.run_case(case["text"], d, case.get("big_stack", False), one_op_per_line=case.get("one_op_per_line", False))
         return None if r in (None, "skip") else r
     finally:
         shutil.rmtree(d, ignore_errors=True)
